@@ -77,6 +77,8 @@ func (s plSched) build() core.Schedule {
 		return schedule.NewStep(s.From, s.To, s.Step, s.Dur)
 	case "instance_step":
 		return schedule.NewInstanceStep(int64(s.From), int64(s.To), s.Step, s.Dur)
+	case "unlimited":
+		return schedule.NewUnlimited(s.Dur)
 	case "composite":
 		var ks []core.Schedule
 		for _, k := range s.Kids {
@@ -133,6 +135,8 @@ func (s plSched) String() string {
 		return fmt.Sprintf("step(%g,%g,%d,%s)", s.From, s.To, s.Step, s.Dur)
 	case "instance_step":
 		return fmt.Sprintf("instance_step(%g,%g,%d,%s)", s.From, s.To, s.Step, s.Dur)
+	case "unlimited":
+		return fmt.Sprintf("unlimited(%s)", s.Dur)
 	}
 	ks := []string{}
 	for _, k := range s.Kids {
@@ -142,7 +146,40 @@ func (s plSched) String() string {
 }
 
 // number of tokens: what a fresh twin reports before its start (how many a profile has is C01's subject)
-func (s plSched) tokens() int { return s.build().Left() }
+// -1 when the schedule has an `unlimited` part (length unknown).
+func (s plSched) tokens() int {
+	if s.hasUnlimited() {
+		return -1
+	}
+	return s.build().Left()
+}
+
+// tokens the schedule hands out in any case: those of its parts of known length
+func (s plSched) minTokens() int {
+	switch s.Ctor {
+	case "unlimited":
+		return 0
+	case "composite":
+		n := 0
+		for _, k := range s.Kids {
+			n += k.minTokens()
+		}
+		return n
+	}
+	return s.build().Left()
+}
+
+func (s plSched) hasUnlimited() bool {
+	if s.Ctor == "unlimited" {
+		return true
+	}
+	for _, k := range s.Kids {
+		if k.hasUnlimited() {
+			return true
+		}
+	}
+	return false
+}
 
 type plConf struct {
 	Startup   plSched
@@ -150,7 +187,8 @@ type plConf struct {
 	Per       bool
 	Discard   bool
 	A         int           // ammo items, -1 = unbounded
-	ShotMax   time.Duration // Shoot sleeps a seeded 0..ShotMax
+	ShotMin   time.Duration
+	ShotMax   time.Duration // Shoot sleeps a seeded ShotMin..ShotMin+ShotMax
 	ProvDelay time.Duration // pause of the provider between two items
 	Past      time.Duration // RPS schedules are started this far in the past (provokes discards); 0 = lazy start
 	Explicit  bool          // startup schedule started explicitly at its first use (else lazily by Next)
@@ -310,6 +348,7 @@ type plGun struct {
 	r    *plRun
 	rng  *rand.Rand
 	max  time.Duration
+	min  time.Duration
 	aggr core.Aggregator
 	id   int
 }
@@ -324,8 +363,8 @@ func (g *plGun) Bind(aggr core.Aggregator, deps core.GunDeps) error {
 func (g *plGun) Shoot(a core.Ammo) {
 	item := a.(*plAmmo).id
 	g.r.log(plEv{Ev: "shoot_b", Item: item, K: g.id})
-	if g.max > 0 {
-		time.Sleep(time.Duration(g.rng.Int63n(int64(g.max) + 1)))
+	if g.max > 0 || g.min > 0 {
+		time.Sleep(g.min + time.Duration(g.rng.Int63n(int64(g.max)+1)))
 	}
 	s := netsample.Acquire("shot")
 	s.SetProtoCode(200)
@@ -425,7 +464,7 @@ func plRunOne(c plConf, seed int64) plResult {
 	newGun := func() (core.Gun, error) {
 		gmu.Lock()
 		defer gmu.Unlock()
-		return &plGun{r: r, rng: rand.New(rand.NewSource(rng.Int63())), max: c.ShotMax, id: -1}, nil
+		return &plGun{r: r, rng: rand.New(rand.NewSource(rng.Int63())), max: c.ShotMax, min: c.ShotMin, id: -1}, nil
 	}
 	m := engine.Metrics{Request: &monitoring.Counter{}, Response: &monitoring.Counter{},
 		InstanceStart: &monitoring.Counter{}, InstanceFinish: &monitoring.Counter{}}
@@ -522,11 +561,27 @@ func plRandRPS(rng *rand.Rand, long bool) plSched {
 		f := float64(50 + 50*rng.Intn(3))
 		return plSched{Ctor: "step", From: f, To: f + float64(100*(1+rng.Intn(2))), Step: 100, Dur: dur() / 2}
 	}
-	switch rng.Intn(10) {
+	switch rng.Intn(11) {
 	case 0, 1, 2:
 		return plSched{Ctor: "once", Times: int64(rng.Intn(13))}
 	case 3, 4, 5, 6:
 		return simple()
+	case 10:
+		// a part of unknown length (unlimited) before, between or after parts of known length
+		unl := plSched{Ctor: "unlimited", Dur: ms(2 + rng.Intn(7))}
+		fin := func() plSched {
+			if rng.Intn(2) == 0 {
+				return plSched{Ctor: "once", Times: int64(rng.Intn(5))}
+			}
+			return plSched{Ctor: "const", From: float64(100 + 100*rng.Intn(4)), Dur: ms(5 + rng.Intn(16))}
+		}
+		switch rng.Intn(3) {
+		case 0:
+			return plSched{Ctor: "composite", Kids: []plSched{fin(), unl}}
+		case 1:
+			return plSched{Ctor: "composite", Kids: []plSched{unl, fin()}}
+		}
+		return plSched{Ctor: "composite", Kids: []plSched{fin(), unl, fin()}}
 	}
 	n := 2 + rng.Intn(2)
 	ks := []plSched{}
@@ -599,6 +654,12 @@ func plRandConf(rng *rand.Rand, focus string) plConf {
 		c.Past = 2*time.Second - ms(40) + ms(rng.Intn(80))
 	}
 	t := c.RPS.tokens()
+	if c.RPS.hasUnlimited() {
+		// tokens as fast as they are asked for: keep every shot >= 0.3 ms so the log stays small
+		c.ShotMin = 300 * time.Microsecond
+		c.Past = 0
+		t = c.RPS.minTokens() + 20
+	}
 	tot := t
 	if c.Per {
 		tot = t * c.Startup.tokens()
@@ -622,6 +683,9 @@ func plRandConf(rng *rand.Rand, focus string) plConf {
 // M2: a configuration enumerated by TLC (PoolMC!Matrix): once(n) startup, t tokens, a items
 func plCaseConf(rng *rand.Rand, m map[string]interface{}, idx int) plConf {
 	t := vt.Int(m["t"])
+	if t < 0 {
+		return plCaseConfUnknown(rng, m, idx)
+	}
 	c := plConf{Case: idx, Per: vt.Bool(m["per"]), Discard: vt.Bool(m["discard"]), A: vt.Int(m["a"])}
 	// startup token instants in ticks (1 tick = 15 ms): equal ticks = once(count), gaps = pauses
 	var ks []plSched
@@ -676,6 +740,26 @@ func plCaseConf(rng *rand.Rand, m map[string]interface{}, idx int) plConf {
 	return c
 }
 
+func plCaseConfUnknown(rng *rand.Rand, m map[string]interface{}, idx int) plConf {
+	mm := map[string]interface{}{}
+	for k, v := range m {
+		mm[k] = v
+	}
+	tmin := vt.Int(m["tmin"])
+	mm["t"] = tmin
+	c := plCaseConf(rng, mm, idx) // startup, ammo, modes
+	unl := plSched{Ctor: "unlimited", Dur: ms(2 + rng.Intn(3))}
+	fin := plSched{Ctor: "once", Times: int64(tmin)}
+	if rng.Intn(2) == 0 {
+		c.RPS = plSched{Ctor: "composite", Kids: []plSched{fin, unl}}
+	} else {
+		c.RPS = plSched{Ctor: "composite", Kids: []plSched{unl, fin}}
+	}
+	c.Past = 0
+	c.ShotMin = 300 * time.Microsecond
+	return c
+}
+
 // ---------------------------------------------------------------- main
 
 func poolMain(args []string) {
@@ -721,7 +805,7 @@ func poolMain(args []string) {
 	for i, res := range results {
 		c := res.conf
 		w.Emit(map[string]interface{}{"run": i, "seq": 0, "ev": "conf",
-			"n": c.Startup.tokens(), "t": c.RPS.tokens(), "a": c.A, "per": c.Per, "discard": c.Discard,
+			"n": c.Startup.tokens(), "t": c.RPS.tokens(), "tmin": c.RPS.minTokens(), "a": c.A, "per": c.Per, "discard": c.Discard,
 			"sparts": c.Startup.parts(), "explicit": c.Explicit, "case": c.Case,
 			"desc": fmt.Sprintf("startup=%s rps=%s per=%v discard=%v a=%d past=%s shot<=%s provdelay=%s explicit=%v",
 				c.Startup, c.RPS, c.Per, c.Discard, c.A, c.Past, c.ShotMax, c.ProvDelay, c.Explicit)})
